@@ -164,6 +164,7 @@ func RunReadP(c *websocket.Conn, steps []RStep, max int, lens []int, extraAfter 
 		steps = []RStep{{Op: "readmessage", Abandon: -1}}
 	}
 	mi := 0 // index of next message
+	var staleReader io.Reader
 	for si := 0; mi < max; si++ {
 		st := steps[si%len(steps)]
 		if prog != nil {
@@ -246,6 +247,15 @@ func RunReadP(c *websocket.Conn, steps []RStep, max int, lens []int, extraAfter 
 				mi++
 				break
 			}
+			if staleReader != nil {
+				// a reader the application kept from an earlier message is
+				// superseded: reading it must not touch the current message
+				var xb [8]byte
+				if k, e := staleReader.Read(xb[:]); k != 0 || e == nil {
+					observe("a Read on the reader of an earlier message, made after NextReader had returned the next message, returned %d bytes (%q) and error %v - it must deliver nothing", k, xb[:k], e)
+				}
+			}
+			staleReader = r
 			var rr io.Reader = r
 			var d []byte
 			var complete bool
